@@ -12,6 +12,19 @@
 // P<c>/<ref>/<size>/<capacity>/<bytes> with c the lowest variable sharing the
 // same private block.  VERIF_BA_MODE=vec: the same operations on
 // std::vector<unsigned char>; slots are D or V/<size>/<bytes>.
+// After fixes/C20-bytearray-unshare-leaked.patch a private block has the
+// member `leaked`; a leaked block prints as P<c>/<ref>/<size>/<capacity>/<bytes>/L.
+//
+// Held references (SET2, SWAP, GETHELD, GETHELDC, HELDPOP, DATAHELDCOPY,
+// DATAHELDASSIGN, CDATAHELD): an element reference or data()/begin() pointer
+// is obtained, other members of the same object are called, then the
+// reference is used.  While such an operation runs, storage released through
+// operator delete is kept aside (not returned to the allocator, so no address
+// is reused); before a held reference is used the program tests whether it
+// points into released storage.  If so the result is UAF and the access is
+// NOT performed (the state stays defined and the run deterministic in every
+// build).  With VERIF_BA_RAW=1 nothing is kept aside or tested: the access is
+// performed as the C++ source says, for AddressSanitizer to report.
 #include <string>
 #include <vector>
 #include <map>
@@ -21,17 +34,39 @@
 #include <cstdlib>
 #include <cstring>
 #include <new>
+#include <utility>
+#include <malloc.h>
 
 // ---- allocation tracking (only while an operation on the class runs) ------
 static bool g_track = false;
 static long g_live = 0;
 void *operator new(size_t n) { void *p = malloc(n ? n : 1); if (!p) abort(); if (g_track) ++g_live; return p; }
 void *operator new[](size_t n) { void *p = malloc(n ? n : 1); if (!p) abort(); if (g_track) ++g_live; return p; }
-void operator delete(void *p) noexcept { if (p && g_track) --g_live; free(p); }
-void operator delete[](void *p) noexcept { if (p && g_track) --g_live; free(p); }
-void operator delete(void *p, size_t) noexcept { if (p && g_track) --g_live; free(p); }
-void operator delete[](void *p, size_t) noexcept { if (p && g_track) --g_live; free(p); }
+// storage released while a held-reference operation runs
+static bool g_raw = false, g_defer = false;
+static struct { char *p; size_t n; } g_def[64];
+static int g_ndef = 0;
+static void release(void *p) {
+    if (!p) return;
+    if (g_track) --g_live;
+    if (g_defer && g_ndef < 64) { g_def[g_ndef].p = (char *)p; g_def[g_ndef].n = malloc_usable_size(p); ++g_ndef; }
+    else free(p);
+}
+void operator delete(void *p) noexcept { release(p); }
+void operator delete[](void *p) noexcept { release(p); }
+void operator delete(void *p, size_t) noexcept { release(p); }
+void operator delete[](void *p, size_t) noexcept { release(p); }
 struct Track { Track() { g_track = true; } ~Track() { g_track = false; } };
+struct Hold {
+    Hold() { g_defer = !g_raw; }
+    ~Hold() { g_defer = false; for (int i = 0; i < g_ndef; ++i) free(g_def[i].p); g_ndef = 0; }
+};
+// does q point into storage that has been released since the Hold began?
+static bool dangling(const void *q) {
+    if (!q) return true;
+    for (int i = 0; i < g_ndef; ++i) if ((const char *)q >= g_def[i].p && (const char *)q < g_def[i].p + (g_def[i].n ? g_def[i].n : 1)) return true;
+    return false;
+}
 
 // the private members are read for the state dump only
 #define private public
@@ -81,6 +116,10 @@ static std::vector<unsigned char> ref_decode(const std::string &s) {
     return out;
 }
 
+// `leaked` exists only after fixes/C20-bytearray-unshare-leaked.patch
+template <class P> static auto is_leaked(const P *p, int) -> decltype((bool)p->leaked) { return p->leaked; }
+template <class P> static bool is_leaked(const P *, long) { return false; }
+
 template <class A> struct Traits;
 template <> struct Traits<ascon::byte_array> {
     typedef ascon::byte_array A;
@@ -92,6 +131,7 @@ template <> struct Traits<ascon::byte_array> {
         for (int i = 0; i < n; ++i) if (vars[i] && vars[i]->p == a->p) { c = i; break; }
         std::ostringstream os;
         os << "P" << c << "/" << a->p->ref << "/" << a->p->size << "/" << a->p->capacity << "/" << hex(a->p->data, a->p->size);
+        if (is_leaked(a->p, 0)) os << "/L";
         return os.str();
     }
     static bool has_capacity() { return true; }
@@ -195,6 +235,60 @@ template <class A> struct Machine {
               else { const unsigned char *d = ca.data(); len = ca.size(); if (len > sizeof(buf)) len = sizeof(buf); if (len) memcpy(buf, d, len); } }
             return "B:" + hex(buf, len);
         }
+        // ---- references and pointers held across other operations on the same object
+        if (o == "SET2" || o == "SWAP" || o == "GETHELD" || o == "GETHELDC" || o == "HELDPOP" || o == "CDATAHELD") {
+            size_t i = strtoul(t[3].c_str(), 0, 10);
+            if (i >= ca.size()) return "PRE";
+            Hold hold; Track k;
+            if (o == "SET2") {
+                unsigned char x = (unsigned char)atoi(t[4].c_str()); size_t j = strtoul(t[5].c_str(), 0, 10); unsigned char y = (unsigned char)atoi(t[6].c_str());
+                if (j >= ca.size()) return "PRE";
+                unsigned char &r = a[i]; unsigned char &s = a[j];
+                if (!g_raw && (dangling(&r) || dangling(&s))) return "UAF";
+                r = x; s = y; return "-";
+            }
+            if (o == "SWAP") {
+                size_t j = strtoul(t[4].c_str(), 0, 10);
+                if (j >= ca.size()) return "PRE";
+                if (g_raw) { std::swap(a[i], a[j]); return "-"; }
+                unsigned char &r = a[i]; unsigned char &s = a[j];
+                if (dangling(&r) || dangling(&s)) return "UAF";
+                std::swap(r, s); return "-";
+            }
+            if (o == "GETHELD" || o == "GETHELDC") {
+                size_t j = strtoul(t[4].c_str(), 0, 10);
+                if (j >= ca.size()) return "PRE";
+                const unsigned char *r;
+                if (o == "GETHELD") { unsigned char &rr = a[i]; (void)a[j]; r = &rr; }
+                else { const unsigned char &rr = ca[i]; (void)ca[j]; r = &rr; }
+                if (!g_raw && dangling(r)) return "UAF";
+                unsigned char x = *r; return hex(&x, 1);
+            }
+            if (o == "HELDPOP") {
+                if (i + 1 >= ca.size()) return "PRE";
+                unsigned char &r = a[i]; a.pop_back();
+                if (!g_raw && dangling(&r)) return "UAF";
+                unsigned char x = r; return hex(&x, 1);
+            }
+            // CDATAHELD v i j value [I|J]: const pointer from data() / cbegin() / begin() const, then a write through operator[]
+            size_t j = strtoul(t[4].c_str(), 0, 10); unsigned char val = (unsigned char)atoi(t[5].c_str());
+            if (j >= ca.size()) return "PRE";
+            const unsigned char *q = (t.size() > 6 && t[6] == "I") ? &*ca.cbegin() : (t.size() > 6 && t[6] == "J") ? &*ca.begin() : ca.data();
+            a[j] = val;
+            if (!g_raw && dangling(q + i)) return "UAF";
+            unsigned char x = q[i]; return hex(&x, 1);
+        }
+        if (o == "DATAHELDCOPY" || o == "DATAHELDASSIGN") {
+            // DATAHELDCOPY v w pos value [I]: pointer from data() / begin(), then w is copy-constructed from / assigned v, then a write through the pointer
+            int w = atoi(t[3].c_str()); size_t pos = strtoul(t[4].c_str(), 0, 10); unsigned char val = (unsigned char)atoi(t[5].c_str());
+            if (w < 0 || w >= n || pos >= ca.size()) return "PRE";
+            if (o == "DATAHELDCOPY" ? vars[w] != 0 : vars[w] == 0) return "PRE";
+            Hold hold; Track k;
+            unsigned char *q = (t.size() > 6 && t[6] == "I") ? &*a.begin() : a.data();
+            if (o == "DATAHELDCOPY") vars[w] = new ((void *)store[w]) A(a); else *vars[w] = a;
+            if (!g_raw && dangling(q + pos)) return "UAF";
+            q[pos] = val; return "-";
+        }
         if (o == "RESERVE") { size_t sz = strtoul(t[3].c_str(), 0, 10); Track k; a.reserve(sz); return "-"; }
         if (o == "RESIZE") { size_t sz = strtoul(t[3].c_str(), 0, 10); Track k; a.resize(sz); return "-"; }
         if (o == "CLEAR") { Track k; a.clear(); return "-"; }
@@ -222,6 +316,8 @@ template <class A> static int mainloop() {
 }
 
 int main() {
+    const char *raw = getenv("VERIF_BA_RAW");
+    g_raw = raw && raw[0] == '1';
     const char *e = getenv("VERIF_BA_MODE");
     if (e && std::string(e) == "vec") return mainloop<std::vector<unsigned char> >();
     return mainloop<ascon::byte_array>();
